@@ -36,6 +36,9 @@ KEY_NE16_COUNT = 'C05:ne16_latency:per-channel:float32-channel-count'
 KEY_SIAM = 'C05:layer-reuse:call-sites-on-different-producers'
 KEY_EXCL = 'C05:effective-in-features:excluded-operand'
 KEY_SPLIT = 'C05:layer-reuse:call-sites-in-different-components'
+KEY_REUSE_IN = 'C05:layer-reuse:call-site-on-network-input'
+KEY_EXCL_DW = 'C05:effective-in-features:depthwise-after-excluded-layer'
+KEY_EXCL_REUSE = 'C05:effective-in-features:reused-layer-after-excluded-layer'
 LT_NAME = {'Conv1d': 'conv1d', 'Conv2d': 'conv2d', 'Linear': 'linear'}
 
 
@@ -357,6 +360,17 @@ def _run_case(case):
             wb = s['w_precision']
             wbits[ii] = list(wb) if isinstance(wb, list) else [wb] * int(mod.weight.shape[0])
             inbits[ii] = s['in_precision']
+        # input bits of every CALL SITE, independently of the layer's own in-quantizer: the output
+        # bit-width summary() reports for the searchable module that produced the tensor read there
+        name_of = {ii_: rname for (tag_, mi2, ii_), (rtag, rname, rmod, rnode) in zip(slots, real)}
+        for mi_, ii, mod, node, name in layers:
+            j = desc['prog'][ii][1]
+            while j not in name_of:
+                j = desc['prog'][j][1]
+            site_bits = summ[name_of[j]]['out_precision']
+            if site_bits != inbits[ii]:
+                res.setdefault('in_bits_mismatch', []).append((name, ii, inbits[ii], site_bits))
+            inbits[ii] = site_bits
         res['shown'] = mc.lst(shown)
         res['lc'] = mc.lst(lc)
         res['mp_real'] = mp_real
@@ -413,6 +427,8 @@ def _run_case(case):
                 return KEY_TIE if cfg.get('ties') else 'C05:sampled-coefficients-not-one-hot:%s' % case['family']
             if ii in in_key:
                 return in_key[ii]
+            if desc.get('reuse_in') and any(b_[1] == ii for b_ in res.get('in_bits_mismatch', [])):
+                return KEY_REUSE_IN
             if pc0 and ex[ii]['pruned']:
                 return KEY_F14
             if spec == 'ne16_latency' and case.get('force'):
@@ -499,14 +515,17 @@ def _gen_cases(rng, n):
         if probe_in:
             fam, dim = 'pc0', 2
         reuse = (k % 6 == 1) and not probe_in
-        if reuse and (k // 6) % 3 == 2:
+        if reuse and (k // 6) % 4 == 3:
+            ne16 = False     # network input and activations at different bit-widths there (ne16 wants 8 / 8)
+        if reuse and (k // 6) % 4 == 2:
             fam = 'pc0'      # results feeding different sums: per-channel search with pruned channels
         if reuse:
             # one conv module invoked at two resolutions (non-shared metrics are per call site)
             dim = 2
             # ... alternately on tensors of one producer / of two different producers (siamese branches)
             # ... or with its two results feeding different sums (the call sites must share one component)
-            gen_r = (mc.gen_reuse_desc, mc.gen_siamese_desc, mc.gen_split_reuse_desc)[(k // 6) % 3]
+            # ... or with one call site on the network input and one on an inner tensor
+            gen_r = (mc.gen_reuse_desc, mc.gen_siamese_desc, mc.gen_split_reuse_desc, mc.gen_reuse_input_desc)[(k // 6) % 4]
             desc = gen_r(rng, couts=(2, 3, 4) if fam == 'pl' else (2, 4, 8))
         else:
             desc = mc.gen_desc(rng, couts=(2, 3, 4) if fam == 'pl' else (2, 4, 8), dim=dim,
@@ -515,6 +534,9 @@ def _gen_cases(rng, n):
         cfg = mc.make_cfg(rng, pc=fam != 'pl', zero=fam == 'pc0', ne16=ne16)
         if probe_in or desc.get('split'):
             cfg['prune_p'] = 0.5
+        if desc.get('reuse_in') and not ne16:
+            # network input and inner activations at different bit-widths, whatever the coefficients
+            cfg['ip'], cfg['ap'] = [rng.choice([4, 8])], [2]
         if k % 3 == 2 and not probe_in:
             cfg['ties'] = 1      # tie stream: exactly equal top coefficients (selection = first maximum)
         case = {'kind': 'cost', 'family': fam, 'desc': desc, 'cfg': cfg, 'mode': 'hard' if rng.random() < 0.3 else 'eval'}
@@ -698,22 +720,27 @@ def _run_excluded(case):
         cons = m.seed.get_submodule('n%d' % case['consumer'])
         full = int(cons.in_channels)
         shown = float(cons.input_features_calculator.features)
-        res['shown'], res['full'] = shown, full
-        pb = float(m.get_cost('params_bit'))
-        bits = [b_ for b_ in cfg['wp'] if b_ != 0][0]
         summ = m.summary()
+        # alive channels of the tensor the consumer reads: all of them when a dense (excluded) tensor is
+        # part of it; the channels a searchable depthwise producer kept otherwise
+        if case.get('alive_of') is not None:
+            alive = sum(1 for b_ in summ['n%d' % case['alive_of']]['w_precision'] if b_ != 0)
+        else:
+            alive = full
+        res['shown'], res['full'], res['alive'] = shown, full, alive
+        pb = float(m.get_cost('params_bit'))
+        anything_pruned = any(0 in v['w_precision'] for v in summ.values() if isinstance(v.get('w_precision'), list))
         exact = 0
         for i, ins in enumerate(desc['prog']):
-            if ins[0] in ('conv', 'lin') and i != case['excluded']:
+            if ins[0] in ('conv', 'dw', 'lin') and i != case['excluded']:
                 wb = summ['n%d' % i]['w_precision']
                 g = _geometry(desc)[i]
-                ain = g['cin']
-                exact += sum(wb) * g['k'] * ain
-        if shown != full:
-            res['fail'].append((KEY_EXCL, 'consumer n%d of a sum with the excluded layer n%d is shown %s input features, all %d are '
-                                'alive (the excluded operand is dense)' % (case['consumer'], case['excluded'], shown, full)))
-        elif pb != exact:
-            res['fail'].append(('C05:params_bit:excluded-operand', 'params_bit %s, exact %s' % (pb, exact)))
+                exact += sum(wb) * g['k'] * (1 if ins[0] == 'dw' else g['cin'])
+        if shown != alive:
+            res['fail'].append((case.get('key', KEY_EXCL), '%s: layer n%d is shown %s input features, %d are alive (the excluded '
+                                'layer n%d keeps all its channels)' % (case['what'], case['consumer'], shown, alive, case['excluded'])))
+        elif not anything_pruned and pb != exact:
+            res['fail'].append(('C05:params_bit:excluded-layer', 'params_bit %s, exact %s' % (pb, exact)))
     except Exception as ex_:
         import traceback
         res['fail'].append(('C05:exception:excluded-operand', '%s: %s' % (type(ex_).__name__, str(ex_)[:200])))
@@ -723,14 +750,31 @@ def _run_excluded(case):
 
 def _excluded_cases(rng):
     out = []
+
+    def cfg_():
+        c = mc.make_cfg(rng, pc=True, zero=True)
+        c['wp'] = [0, 8]
+        return c
+    # a(y) + b(y), b excluded
     for first in (0, 1):
         prog = [['input'], ['conv', 0, 4, 3, 1, 1], ['relu', 1], ['conv', 2, 4, 3, 1, 1], ['conv', 2, 4, 1, 1, 1]]
         prog.append(['add', 3, 4] if first else ['add', 4, 3])
         prog += [['relu', 5], ['conv', 6, 4, 1, 1, 1], ['relu', 7], ['flat', 8], ['lin', 9, 2, 1]]
-        cfg = mc.make_cfg(rng, pc=True, zero=True)
-        cfg['wp'] = [0, 8]
-        out.append({'kind': 'excluded', 'desc': {'C0': 3, 'T': 4, 'dim': 2, 'wseed': 21 + first, 'prog': prog}, 'cfg': cfg,
-                    'pruned': 3, 'excluded': 4, 'consumer': 7})
+        out.append({'kind': 'excluded', 'desc': {'C0': 3, 'T': 4, 'dim': 2, 'wseed': 21 + first, 'prog': prog}, 'cfg': cfg_(),
+                    'pruned': 3, 'excluded': 4, 'consumer': 7, 'key': KEY_EXCL,
+                    'what': 'consumer of a sum with the output of an excluded layer'})
+    # searchable depthwise conv on the output of an excluded layer
+    prog = [['input'], ['conv', 0, 8, 3, 1, 1], ['relu', 1], ['dw', 2, 3, 1, 1], ['relu', 3], ['conv', 4, 4, 1, 1, 1], ['relu', 5],
+            ['flat', 6], ['lin', 7, 2, 1]]
+    out.append({'kind': 'excluded', 'desc': {'C0': 3, 'T': 4, 'dim': 2, 'wseed': 23, 'prog': prog}, 'cfg': cfg_(),
+                'pruned': 3, 'excluded': 1, 'consumer': 5, 'alive_of': 3, 'key': KEY_EXCL_DW,
+                'what': 'consumer of a searchable depthwise conv fed by an excluded layer'})
+    # a layer invoked on the output of an excluded layer and then on its own output
+    prog = [['input'], ['conv', 0, 4, 3, 1, 1], ['conv', 1, 4, 3, 1, 1], ['relu', 2], ['reuse', 3, 2], ['relu', 4], ['flat', 5],
+            ['lin', 6, 2, 1]]
+    out.append({'kind': 'excluded', 'desc': {'C0': 3, 'T': 4, 'dim': 2, 'wseed': 24, 'prog': prog}, 'cfg': cfg_(),
+                'pruned': 2, 'excluded': 1, 'consumer': 2, 'key': KEY_EXCL_REUSE,
+                'what': 'layer invoked on the output of an excluded layer and on its own output'})
     return out
 
 
@@ -813,7 +857,7 @@ def run(chk):
                   sample={'prog': case['desc']['prog'], 'family': case['family'], 'wp': cfg['wp'], 'ap': cfg['ap'],
                           'mode': case['mode'], 'cost': r.get('cost')})
         for hk in ('mode:' + case['mode'], 'dim:%d' % case['desc']['dim'], 'ne16:%d' % case['ne16'],
-                   'pruned_layers>0:%d' % int(r.get('pruned_layers', 0) > 0), 'layer-reuse:%d' % int(bool(r.get('reuse'))), 'siamese:%d' % int(bool(case['desc'].get('siamese'))), 'split-reuse:%d' % int(bool(case['desc'].get('split'))),
+                   'pruned_layers>0:%d' % int(r.get('pruned_layers', 0) > 0), 'layer-reuse:%d' % int(bool(r.get('reuse'))), 'siamese:%d' % int(bool(case['desc'].get('siamese'))), 'split-reuse:%d' % int(bool(case['desc'].get('split'))), 'reuse-on-input:%d' % int(bool(case['desc'].get('reuse_in'))),
                    'ties:%d' % int(bool(cfg.get('ties')))):
             chk.hist[hk] = chk.hist.get(hk, 0) + 1
         if r.get('big'):
